@@ -9,6 +9,7 @@ import (
 	"runtime"
 	"sort"
 	"strings"
+	"sync"
 	"testing"
 	"testing/synctest"
 	"time"
@@ -192,10 +193,11 @@ type clRun struct {
 	removedAt map[string]time.Duration // address -> time it was last seen leaving the list
 	woSince   map[string]int           // address -> index of first io op issued after it appeared as WO
 
+	frameMu      sync.Mutex
 	verifyReads  int
 	lastPromoted string
 	hooks        map[string]int
-	httpDrops    map[string]*[2]int
+	httpDrops    map[string]*[3]int
 	everWild     []bool
 	reverted     bool
 	foldsAtWO    map[string]int64
@@ -293,7 +295,7 @@ func (cr *clRun) run(dir string) {
 		cr.step = i
 		cr.exec(i, op)
 	}
-	if !cr.stopped() {
+	if !cr.stopped() && os.Getenv("VERIF_NOSETTLE") == "" { // (debugging aid: inspect the directories as the script left them)
 		cr.step = len(s.Ops)
 		cr.settle()
 	}
@@ -387,6 +389,13 @@ func (cr *clRun) exec(i int, op Op) {
 			rn.inc++
 			rn.dir = filepath.Join(rn.base, fmt.Sprintf("inc-%d", rn.inc))
 			os.MkdirAll(rn.dir, 0700)
+			// the replacement is provisioned with the size the volume was created with:
+			// every grow so far has passed it by (same root cause as known finding D15)
+			for _, a := range cr.admins {
+				if a.kind == "resize" && a.missed != nil {
+					a.missed[rn.addr] = true
+				}
+			}
 			c.startReplica(rn)
 			cr.note("replace", rn.name)
 			cr.res.stat("fault_replace", 1)
@@ -430,7 +439,7 @@ func (cr *clRun) exec(i int, op Op) {
 		// the next B HTTP exchanges between the controller and replica A lose their
 		// request (F=false) or their response after the handler ran (F=true)
 		rn := cr.rep(op.A)
-		cr.armHTTPFault(rn, int(op.B), op.F)
+		cr.armHTTPFault(rn, int(op.B), op.F, int(op.C))
 		cr.faultsActive = true
 		cr.note("httpfault", fmt.Sprintf("%s-%v", rn.name, op.F))
 	case "hook":
@@ -487,12 +496,12 @@ func (cr *clRun) armHook(rn *repNode, site, effect int) {
 	cr.res.stat("hook_armed", 1)
 }
 
-func (cr *clRun) armHTTPFault(rn *repNode, n int, dropResp bool) {
+func (cr *clRun) armHTTPFault(rn *repNode, n int, dropResp bool, skip int) {
 	if n <= 0 {
 		n = 1
 	}
 	if cr.httpDrops == nil {
-		cr.httpDrops = map[string]*[2]int{}
+		cr.httpDrops = map[string]*[3]int{}
 		cr.c.httpFault = func(r *simrt.HTTPReqInfo) simrt.HTTPVerdict {
 			var peer string
 			switch {
@@ -507,6 +516,10 @@ func (cr *clRun) armHTTPFault(rn *repNode, n int, dropResp bool) {
 			defer cr.c.mu.Unlock()
 			d := cr.httpDrops[peer]
 			if d == nil {
+				return simrt.HTTPDeliver
+			}
+			if d[2] > 0 { // let the first exchanges through: the fault lands deeper inside a multi-call operation
+				d[2]--
 				return simrt.HTTPDeliver
 			}
 			if d[0] > 0 {
@@ -525,9 +538,10 @@ func (cr *clRun) armHTTPFault(rn *repNode, n int, dropResp bool) {
 	cr.c.mu.Lock()
 	d := cr.httpDrops[rn.name]
 	if d == nil {
-		d = &[2]int{}
+		d = &[3]int{}
 		cr.httpDrops[rn.name] = d
 	}
+	d[2] = skip
 	if dropResp {
 		d[1] += n
 	} else {
@@ -722,7 +736,9 @@ func (cr *clRun) onFrame(fr *obsFrame) {
 				cr.viol("C18", "io-frame-outside-any-operation", "a type-%d frame went to %s while no initiator operation held the controller", t, fr.target)
 				return
 			}
+			cr.frameMu.Lock() // frames are observed on the sending goroutines (one per replica connection)
 			o.frames = append(o.frames, fr)
+			cr.frameMu.Unlock()
 			// C05/C18: a removed replica receives no further I/O
 			if !cr.present[addr] && !containsAddr(o.list, addr) {
 				cr.viol("C05", "io-sent-to-detached-replica", "op %d (%s): type-%d frame sent to %s which is not in the controller's replica list", o.idx, o.kind, t, addr)
@@ -743,7 +759,9 @@ func (cr *clRun) onFrame(fr *obsFrame) {
 		}
 	} else if t == tResponse || t == tError || t == tEOF {
 		if o := cr.curOp; o != nil {
+			cr.frameMu.Lock()
 			o.replies = append(o.replies, fr)
+			cr.frameMu.Unlock()
 		}
 	}
 }
@@ -820,6 +838,9 @@ func (cr *clRun) onQuiescent() {
 			}
 			cr.mutations++
 			cr.res.stat("membership_add", 1)
+			if r.Mode == types.RW {
+				cr.electedAtColdStart(r.Address)
+			}
 		}
 	}
 	for a := range cr.present {
@@ -939,6 +960,25 @@ func (cr *clRun) judgeIO(o *ioOp) {
 	for _, r := range o.list {
 		if r.Mode != types.ERR {
 			attached = append(attached, r.Address)
+		}
+	}
+	if o.kind == "w" && o.n > 0 && rw >= cr.quorum() && cr.lockFree() {
+		// C18: the replicas the controller lists are the ones it sends I/O to. A
+		// listed, attached replica that got no frame for this write and is still
+		// listed afterwards exists only in the list (phantom entry).
+		sent := map[string]bool{}
+		for _, q := range o.frames {
+			sent[cr.addrOf(q.target)] = true
+		}
+		cur := cr.c.ctrl.ListReplicas()
+		if len(o.frames) > 0 {
+			for _, a := range attached {
+				m := modeOf(cur, a)
+				if !sent[a] && (m == types.RW || m == types.WO) && cr.epoch[a] == o.epochs[a] {
+					cr.viol("C18", "listed-replica-not-sent-write", "write %d went to %v but not to %s, which was listed %s before and is still listed %s after it", o.idx, sortedNames(sent), a, modeOf(o.list, a), m)
+					return
+				}
+			}
 		}
 	}
 	if o.kind == "w" && o.n > 0 {
@@ -1348,7 +1388,7 @@ func (clustersim) Generate(rng *Rand, prop, tier string) *Script {
 		case x < 80:
 			add(Op{K: "part", A: r})
 		case x < 88:
-			add(Op{K: "httpfault", A: r, B: int64(rng.Range(1, 3)), F: rng.Bool(60)})
+			add(Op{K: "httpfault", A: r, B: int64(rng.Range(1, 3)), F: rng.Bool(60), C: int64(rng.Intn(12))})
 		case x < 94:
 			add(Op{K: "hook", A: r, B: int64(rng.Intn(4)), C: int64(rng.Intn(2))})
 		default:
@@ -1431,8 +1471,11 @@ func (clustersim) Generate(rng *Rand, prop, tier string) *Script {
 			add(Op{K: "adv", A: int64(rng.Range(100, 3000))})
 			genIO()
 			wait()
-			if rng.Bool(60) {
+			if rng.Bool(50) {
 				add(Op{K: "hook", A: victim, B: int64(1 + rng.Intn(2)), C: 1}) // pause inside UpdateLUNMap / preload
+			} else if rng.Bool(50) {
+				// lose one management call somewhere inside the add/rebuild conversation
+				add(Op{K: "httpfault", A: victim, B: 1, F: rng.Bool(50), C: int64(rng.Intn(14))})
 			}
 			add(Op{K: "restart", A: victim})
 			add(Op{K: "adv", A: int64(rng.Range(5, 2500))})
